@@ -20,6 +20,18 @@ type VerifEtcd struct {
 	Connected bool
 	watchers  []*verifWatcher
 	Gets      int
+	// revision history, as etcd keeps it: a watch opened "from revision r" is first fed
+	// every logged change of its prefix with revision >= r
+	modRev map[string]int64
+	log    []verifLogged
+	// AfterGet, if set, runs once right after the next snapshot read: a change landing
+	// between a subscriber's snapshot and the start of its watch
+	AfterGet func()
+}
+
+type verifLogged struct {
+	rev int64
+	ev  *clientv3.Event
 }
 
 type verifWatcher struct {
@@ -29,7 +41,9 @@ type verifWatcher struct {
 	dead    bool
 }
 
-func NewVerifEtcd() *VerifEtcd { return &VerifEtcd{KV: map[string]string{}, Rev: 1, Connected: true} }
+func NewVerifEtcd() *VerifEtcd {
+	return &VerifEtcd{KV: map[string]string{}, Rev: 1, Connected: true, modRev: map[string]int64{}}
+}
 
 func (f *VerifEtcd) ActiveConnection() *grpc.ClientConn { return nil }
 func (f *VerifEtcd) Close() error                       { return nil }
@@ -58,18 +72,30 @@ func (f *VerifEtcd) Get(ctx context.Context, key string, opts ...clientv3.OpOpti
 	sort.Strings(keys)
 	resp := &clientv3.GetResponse{Header: &etcdserverpb.ResponseHeader{Revision: f.Rev}}
 	for _, k := range keys {
-		resp.Kvs = append(resp.Kvs, &mvccpb.KeyValue{Key: []byte(k), Value: []byte(f.KV[k])})
+		resp.Kvs = append(resp.Kvs, &mvccpb.KeyValue{Key: []byte(k), Value: []byte(f.KV[k]), ModRevision: f.modRev[k]})
+	}
+	if hook := f.AfterGet; hook != nil {
+		f.AfterGet = nil
+		hook()
 	}
 	return resp, nil
 }
 
 func (f *VerifEtcd) Watch(ctx context.Context, key string, opts ...clientv3.OpOption) clientv3.WatchChan {
 	w := &verifWatcher{ch: make(chan clientv3.WatchResponse, 64), prefix: key, dead: !f.Connected}
+	if from := clientv3.OpGet(key, opts...).Rev(); from > 0 && !w.dead {
+		for _, l := range f.log {
+			if l.rev >= from && strings.HasPrefix(string(l.ev.Kv.Key), key) {
+				w.pending = append(w.pending, l.ev)
+			}
+		}
+	}
 	f.watchers = append(f.watchers, w)
 	return w.ch
 }
 
 func (f *VerifEtcd) queue(ev *clientv3.Event) {
+	f.log = append(f.log, verifLogged{f.Rev, ev})
 	if !f.Connected {
 		return // missed: only the next snapshot shows it
 	}
@@ -83,7 +109,8 @@ func (f *VerifEtcd) queue(ev *clientv3.Event) {
 func (f *VerifEtcd) PutKV(k, v string) {
 	f.Rev++
 	f.KV[k] = v
-	f.queue(&clientv3.Event{Type: clientv3.EventTypePut, Kv: &mvccpb.KeyValue{Key: []byte(k), Value: []byte(v)}})
+	f.modRev[k] = f.Rev
+	f.queue(&clientv3.Event{Type: clientv3.EventTypePut, Kv: &mvccpb.KeyValue{Key: []byte(k), Value: []byte(v), ModRevision: f.Rev}})
 }
 
 func (f *VerifEtcd) DelKV(k string) {
@@ -93,7 +120,8 @@ func (f *VerifEtcd) DelKV(k string) {
 	}
 	f.Rev++
 	delete(f.KV, k)
-	f.queue(&clientv3.Event{Type: clientv3.EventTypeDelete, Kv: &mvccpb.KeyValue{Key: []byte(k), Value: []byte(v)}})
+	delete(f.modRev, k)
+	f.queue(&clientv3.Event{Type: clientv3.EventTypeDelete, Kv: &mvccpb.KeyValue{Key: []byte(k), Value: []byte(v), ModRevision: f.Rev}})
 }
 
 // Pending reports whether any live watcher has undelivered events.
